@@ -465,10 +465,23 @@ class AtomicSaver:
 
     def __exit__(self, exc_type, exc_val, exc_tb):
         if self.part_file:
-            # Ensure data is flushed and synced to disk before closing
-            self.part_file.flush()
-            os.fsync(self.part_file.fileno())
-            self.part_file.close()
+            try:
+                try:
+                    # Ensure data is flushed and synced to disk before closing
+                    self.part_file.flush()
+                    os.fsync(self.part_file.fileno())
+                finally:
+                    self.part_file.close()
+            except Exception:
+                # the part file is incomplete, do not leave it behind
+                if self.rm_part_on_exc:
+                    try:
+                        os.unlink(self.part_path)
+                    except Exception:
+                        pass  # avoid masking original error
+                if exc_type:
+                    return  # avoid masking original error
+                raise  # could not save destination file
         if exc_type:
             if self.rm_part_on_exc:
                 try:
